@@ -23,7 +23,8 @@ TRUSTED_BASE = [
 
 class Stream:
     def __init__(self, name, stream, gen, args=(), flavours=("rel",), spec=None, spec_args=None, nontrivial=None,
-                 L=None, search_gen=None, timeout=300, model_args=None, exhaustive=False, rule="", env=None, expect=None, model_case=None, tiers=None, stateless=False):
+                 L=None, search_gen=None, timeout=300, model_args=None, exhaustive=False, rule="", env=None, expect=None, model_case=None, tiers=None, stateless=False,
+                 canon=None):
         self.name, self.stream, self.gen, self.args = name, stream, gen, list(args)
         self.flavours, self.spec, self.spec_args = flavours, spec, spec_args
         self.nontrivial = nontrivial or (lambda case, line: True)
@@ -37,6 +38,8 @@ class Stream:
         self.tiers = tiers            # None = every tier
         self.stateless = stateless    # the function under test keeps no state between calls: the cases are also run in
                                       # two seeded random orders within one process and must give the same lines
+        self.canon = canon            # optional line -> line map applied to BOTH sides before comparing (e.g. "the assert-enabled
+                                      # build aborted on a CBOR_ASSERT" and the model's FAULT:assert-N both become ASSERT)
 
 class Prop:
     def __init__(self, pid, coq, streams, level_note="", extra=None, judge=None):
@@ -115,6 +118,8 @@ def run_one_stream(ctx, s, cases, model_stream=None, flavours=None):
     else:
         mcases = [s.model_case(c) for c in cases] if s.model_case else cases
         model_lines = corr.run_stream(corr.model_cmd(model_stream or s.model_stream or s.stream, margs), mcases, timeout=s.timeout)
+    if s.canon:
+        model_lines = [s.canon(l) for l in model_lines]
     dis, impl_by = [], {}
     # Under a refusal schedule a history that is legal when every allocation succeeds can become one no
     # client would run (e.g. the item for a tag could not be built, so cbor_tag_set_item was not called,
@@ -128,6 +133,8 @@ def run_one_stream(ctx, s, cases, model_stream=None, flavours=None):
     for fl in (flavours or s.flavours):
         hx = ctx.hx(fl, s.L)
         sub = corr.run_stream([hx, s.stream] + [str(a) for a in s.args], [cases[i] for i in keep], timeout=s.timeout, env=s.env)
+        if s.canon:
+            sub = [s.canon(l) for l in sub]
         impl = list(model_lines)
         for j, i in enumerate(keep):
             impl[i] = sub[j] if j < len(sub) else "MISSING"
@@ -332,8 +339,12 @@ def search(ctx, prop, known, known_hits):
         else:
             mcases = [s.model_case(c) for c in cases] if s.model_case else cases
             ref = corr.run_stream(corr.model_cmd(ref_stream, sargs), mcases, timeout=s.timeout)
+        if s.canon:
+            ref = [s.canon(l) for l in ref]
         for fl in s.flavours:
             impl = corr.run_stream([ctx.hx(fl, s.L), s.stream] + [str(a) for a in s.args], cases, timeout=s.timeout, env=s.env)
+            if s.canon:
+                impl = [s.canon(l) for l in impl]
             for (i, c, a, b) in corr.compare(cases, impl, ref):
                 k = matches_known(known, prop.pid, s.name, c, a)
                 if k:
